@@ -298,7 +298,28 @@ def emit_stunforms(w, src, must):
     w("")
 
 
-SECTIONS = [("codes", emit_codes), ("timers", emit_timers), ("guards", emit_guards), ("stun", emit_stun), ("sdp", emit_sdp), ("sip", emit_sip), ("auth", emit_auth), ("ua", emit_ua), ("tsxforms", emit_tsxforms), ("streamforms", emit_streamforms), ("cancelforms", emit_cancelforms), ("stunforms", emit_stunforms)]
+def emit_uaforms(w, src, must):
+    """orderings the timed models of C12 / C06 take for granted"""
+    a = src("crates/sip-ua/src/invite/acceptor.rs")
+    m = re.search(r"async fn respond_success\b", a)
+    body = a[m.start():] if m else ""
+    nxt = re.search(r"\n    (pub )?(async )?fn ", body[10:])
+    body = body[:nxt.start() + 10] if nxt else body
+    reg = re.search(r"awaited_ack\s*\.lock\(\)\s*=\s*Some\(", body)
+    snd = re.search(r"\.respond_success\(", body)
+    w("(* Acceptor::respond_success registers the ACK rendezvous (awaited_ack) before it hands the 2xx to the transport *)")
+    flag(w, "ack_rendezvous_before_send", bool(reg and snd and reg.start() < snd.start()), bool(reg and snd and reg.start() > snd.start()),
+         "order of the ACK rendezvous and the send in Acceptor::respond_success")
+    t = src("crates/sip-core/src/transaction/mod.rs") + src("crates/sip-core/src/transaction/registration.rs")
+    unb = len(re.findall(r"mpsc::unbounded_channel\(\)", t))
+    bnd = bool(re.search(r"mpsc::channel\(", t)) or "try_send" in t
+    w("(* the per-transaction message queue (Transactions::get_handler, TsxRegistration::create) is unbounded: nothing a transaction")
+    w("   has not picked up yet is ever refused *)")
+    flag(w, "tsx_queue_unbounded", unb >= 2 and not bnd, bnd, "the channel between do_receive and a transaction")
+    w("")
+
+
+SECTIONS = [("codes", emit_codes), ("timers", emit_timers), ("guards", emit_guards), ("stun", emit_stun), ("sdp", emit_sdp), ("sip", emit_sip), ("auth", emit_auth), ("ua", emit_ua), ("tsxforms", emit_tsxforms), ("streamforms", emit_streamforms), ("cancelforms", emit_cancelforms), ("stunforms", emit_stunforms), ("uaforms", emit_uaforms)]
 
 # which properties' models read which section of Gen/Tables.v
 SECTION_USERS = {
@@ -315,4 +336,5 @@ SECTION_USERS = {
     "streamforms": ["C15"],
     "cancelforms": ["C12"],
     "stunforms": ["C20", "C16"],
+    "uaforms": ["C12", "C06"],
 }
